@@ -110,6 +110,8 @@ def generate(G):
     mm("1x2x1_nn_lead2_right", 1, 2, 1, False, False, None, "thorough", lead_b=[2])
     mm("1x2x1_nn_lead1_2", 1, 2, 1, False, False, None, "thorough", lead_a=[1], lead_b=[2])
     mm("2x2x2_nt_c_only", 2, 2, 2, False, True, [2], "thorough", tracked=(False, False, True))
+    mm("1x2x1_nn_l2x2_l2", 1, 2, 1, False, False, None, "thorough", lead_a=[2, 2], lead_b=[2])
+    mm("1x2x1_nt_l2x2_l2", 1, 2, 1, False, True, None, "thorough", lead_a=[2, 2], lead_b=[2])
     mm("2x1x2_nn_lead2_c2x1x2_c_only", 2, 1, 2, False, False, [2, 1, 2], "thorough", lead_a=[2], lead_b=[2], tracked=(False, False, True))
     mm("2x2x2_nt_b_only", 2, 2, 2, False, True, [2], "thorough", tracked=(False, True, False))
     for at in (False, True):
